@@ -114,9 +114,12 @@ def step (st : Unit) (ws : List String) : Unit × String :=
     | ["slot", c, t, b, i] =>
       match parseCalc c, t.toInt?, b.toInt?, i.toInt? with
       | some c, some t, some b, some i =>
-        match calcSlot c t b i with
-        | some s => toString s
-        | none => "panic"
+        match slotVariantOf LinVerif.Generated.C13.monthCalcSlotExpr with
+        | some v =>
+          match calcSlotV v c t b i with
+          | some s => toString s
+          | none => "panic"
+        | none => "unknown-variant"
       | _, _, _, _ => "bad-op"
     | ["ts", s, k, i] =>
       match s.toInt?, k.toInt?, i.toInt? with
@@ -129,9 +132,12 @@ def step (st : Unit) (ws : List String) : Unit × String :=
     | ["slotrange", i, f, qs, qe] =>
       match i.toInt?, f.toInt?, qs.toInt?, qe.toInt? with
       | some i, some f, some qs, some qe =>
-        match calcSlotRange i f ⟨qs, qe⟩ with
-        | some (a, b) => s!"{a} {b}"
-        | none => "panic"
+        match slotVariantOf LinVerif.Generated.C13.monthCalcSlotExpr with
+        | some v =>
+          match calcSlotRangeV v i f ⟨qs, qe⟩ with
+          | some (a, b) => s!"{a} {b}"
+          | none => "panic"
+        | none => "unknown-variant"
       | _, _, _, _ => "bad-op"
     | ["wrange", c, b, t] =>
       match parseCalc c, b.toInt?, t.toInt? with
